@@ -90,18 +90,30 @@ class Printer {
     let out = ''
     for (let i = 0; i < s.length; i++) {
       const ch = s[i]
-      if (ch === '<') out += this.ent('lt', 60)
+      const ref = this.numericRef(s, i)
+      if (ref) { out += ref[0]; i += ref[1] - 1 }
+      else if (ch === '<') out += this.ent('lt', 60)
       else if (ch === '&') out += this.ent('amp', 38)
       else if (ch === '{' && s[i + 1] === '{') out += '&#123;'
       else out += ch
     }
     return out
   }
+  /** in the decimal / hex entity variants a few characters are written as numeric references, so that references of
+   *  1, 2, 5 and 6 hex digits (1, 3, 6, 7 decimal digits) occur in well-formed input: TAB, e-acute, an emoji, U+10FFFF */
+  numericRef(s, i) {
+    if (this.s.entity !== 'decimal' && this.s.entity !== 'hex') return null
+    const cp = s.codePointAt(i)
+    if (cp !== 9 && cp !== 0xe9 && cp !== 0x1f600 && cp !== 0x10ffff) return null
+    return [this.s.entity === 'decimal' ? `&#${cp};` : `&#x${cp.toString(16).toUpperCase()};`, cp > 0xffff ? 2 : 1]
+  }
   escAttr(s, q, nextIsBinding) {
     if (nextIsBinding && s.endsWith('{')) return this.escAttr(s.slice(0, -1), q) + '&#123;'
     let out = ''
     for (let i = 0; i < s.length; i++) {
       const ch = s[i]
+      const ref = this.numericRef(s, i)
+      if (ref) { out += ref[0]; i += ref[1] - 1; continue }
       if (ch === q) out += q === '"' ? this.ent('quot', 34) : '&#39;'
       else if (ch === '&') out += this.ent('amp', 38)
       else if (ch === '{' && s[i + 1] === '{') out += '&#123;'
@@ -463,7 +475,7 @@ function render(files, scripts, path, data, opts) {
         case 'mark': node.attrs.push(['mark', a.name, a.v === undefined ? true : val]); break
         case 'event': node.attrs.push(['event', a.name, a.v === undefined ? '' : val, { catch: a.prefix.includes('catch'), mut: a.prefix.includes('mut-bind'), capture: a.prefix.startsWith('capture-') }]); break
         case 'model': node.attrs.push(['attr', dashToCamel(a.name), val]); break
-        case 'change': if (typeof a.v === 'object' && a.v !== null && !Array.isArray(a.v)) node.attrs.push(['change', dashToCamel(a.name), val]); break
+        case 'change': if (typeof a.v === 'object' && a.v !== null) node.attrs.push(['change', dashToCamel(a.name), val]); break // (a static value is not a listener)
         case 'worklet': node.attrs.push(['worklet', dashToCamel(a.name), val]); break
         case 'generic': node.generics[a.name] = val; break
         case 'extra-attr': node.attrs.push(['extra-attr', a.name, val]); break
